@@ -55,6 +55,9 @@ def run(c, facts, tier):
     )
     c.decided = ["keyword and word reach the message for every argument-taking keyword at every position", "unknown word is quoted", "message never empty"]
     c.not_decided = ["wording of the messages"]
+    from .. import report as _rep
+
+    _rep.require(c, facts, "c06", "C18.reread", "word parser", "the word parser used to re-read the offending word accepts every word", lambda o: o["rule"] == "C06.quoting", "the offending word is quoted by re-reading it with the grammar's word parser; that this parser returns every bare word unchanged (no verify/map on the bare form) is decided by C06.quoting")
     alts = kw.alternatives(g, tokfn)
     cats = voc["category_labels"]  # test/action/global -> label string
     # the strings SyntaxContext::new matches on
